@@ -269,6 +269,7 @@ func c05Client(r *c05Run) {
 	c05ClientPublish(r)
 	c05ClientSubscribe(r)
 	c05ClientInbound(r)
+	c05InboundOwnership(r.c)
 	c05ClientReject(r)
 	delete(r.parts, "client_sampled_connect")
 	delete(r.parts, "client_sampled_publish")
